@@ -551,6 +551,9 @@ func c11Request(env *c11Env, r c11Rq) node.Req {
 		}
 		return env.n.MkReq("POST", "/api/node/"+env.root+"/branch", []byte(fmt.Sprintf(`{"branch":%q}`, r.str("b"))))
 	case "nj":
+		if r.str("k") == "del" {
+			return env.n.MkReq("DELETE", "/api/node/"+env.root+"/nj/key/7", nil)
+		}
 		f, _ := r["f"].(map[string]interface{})
 		m := map[string]interface{}{"bodyid": 7}
 		for x, v := range f {
@@ -1646,7 +1649,7 @@ func checkC11(c *Ctx) int {
 	}
 	if c.thorough() && len(c11BaseTemplates) > 0 {
 		// 3 processes: a seeded sample of request triples per template, every gate-grain schedule of each
-		catalog := map[string]int{"kv": 2, "ann": 9, "lm": 7, "ver": 3, "nj": 4, "nl": 2, "mut": 1, "cli": 3}
+		catalog := map[string]int{"kv": 2, "ann": 9, "lm": 7, "ver": 3, "nj": 5, "nl": 2, "mut": 1, "cli": 3}
 		perTpl := map[string]int{"kv": 4, "ann": 14, "lm": 14, "ver": 8, "nj": 8, "nl": 4, "mut": 1, "cli": 6}
 		var only []string
 		for _, t := range c11BaseTemplates {
